@@ -58,6 +58,10 @@ def _gen0(rng, tier):
         trajs = [[rng.choice(labs) for _ in range(lag + rng.choice([1, 1, 1, 0, 2]))] for _ in range(rng.randint(3, 40))]
         trajs.insert(rng.randrange(len(trajs)), G.traj(rng, labs, rng.randint(20, 60)))
         yield {'trajs': trajs, 'lag': lag, 'form': rng.choice(['loa', 'lol', 'obj']), 'dtype': 'int64', 'alpha': akind + '+snippets'}
+    for _ in range(1 if tier == 'quick' else 3):                     # several trajectories, more than 100000 frames in total
+        labs, akind = G.alphabet(rng, k=rng.randint(2, 3))
+        yield {'trajs': [G.traj(rng, labs, rng.randint(50000, 60000), sticky=0.5) for _ in range(rng.choice([2, 4]))], 'lag': rng.choice([1, 2]),
+               'form': 'loa', 'dtype': 'int64', 'alpha': akind + '+big-set'}
     for _ in range(1 if tier == 'quick' else 4):                     # a trajectory of more than 2^16 frames
         labs, akind = G.alphabet(rng, k=rng.randint(2, 4))
         yield {'trajs': [G.traj(rng, labs, rng.randint(66000, 72000), sticky=0.6), G.traj(rng, labs, 5)], 'lag': rng.choice([2, 3, 7]),
